@@ -163,7 +163,7 @@ class P:
                 stmts.append(('expr', e))
             elif self.at('}'):
                 tail = e
-            elif e[0] in ('if', 'match', 'block', 'for', 'while'):
+            elif e[0] in ('if', 'iflet', 'match', 'block', 'for', 'while'):
                 stmts.append(('expr', e))
             else:
                 raise Untranslatable('statement: unexpected %r' % (self.peek()[1],))
@@ -317,6 +317,18 @@ class P:
             return e
         if v == '{':
             return self.block()
+        if v == 'if' and k == 'id' and self.peek(1) == ('id', 'let'):
+            self.take()
+            self.take()
+            pat = self.pattern()
+            self.take('=')
+            scrut = self.expr(0, True)
+            b = self.block()
+            el = None
+            if self.at('else'):
+                self.take()
+                el = self.block()
+            return ('iflet', pat, scrut, b, el)
         if v == 'if' and k == 'id':
             self.take()
             c = self.expr(0, True)
@@ -707,6 +719,8 @@ class Emitter:
                 return '(Mat3.setPosition %s %s)' % (t, as_P(a, aty)), T_MAT
             if name == 'periodic' and len(args) == 2:
                 return '(Mat3.periodic %s %s %s)' % (t, self.ex(args[0])[0], self.ex(args[1])[0]), T_MAT
+        if ty == 'n' and name in ('min', 'max') and len(args) == 1:
+            return '(Nat.%s %s %s)' % (name, t, self.nat(args[0])), 'n'
         if ty == 'f':
             if name in self.F1 and not args:
                 return '(%s %s)' % (self.F1[name], t), 'f'
@@ -1134,6 +1148,68 @@ class Emitter:
             return body[:-len('%s)' % acc)] + r + ')', rty
         raise Untranslatable('loop that both returns and accumulates (or does neither)')
 
+    # ---- imperative fragments: a statement block that updates a fixed tuple of mutable locals and may
+    # `return` early.  Value: `(stopped : Bool, (v1, …, vn))`.
+    def imp(self, st, vs):
+        tup = '(' + ', '.join(vs) + ')'
+        if not st:
+            return '(false, %s)' % tup
+        s, rest = st[0], st[1:]
+        if s[0] == 'return':
+            return '(true, %s)' % tup
+        if s[0] == 'expr' and s[1][0] == 'macro':
+            if s[1][1] in LOGGING:
+                return self.imp(rest, vs)
+            raise Untranslatable('macro ' + s[1][1])
+        if s[0] == 'let':
+            t, ty = self.ex(s[2])
+            ptxt, binds = self.bind(s[1], t, ty)
+            sub = self.sub()
+            for n, tt, tty in binds:
+                sub.env[n] = (tt, tty)
+            return '(let %s := %s; %s)' % (ptxt, t, sub.imp(rest, vs))
+        if s[0] == 'assign' and s[1][0] == 'path' and len(s[1][1]) == 1 and s[1][1][0] in vs:
+            x = s[1][1][0]
+            xty = self.env[x][1]
+            if s[3][0] == 'num' and xty == 'n':
+                v = self.nat(s[3])
+            else:
+                v, vty = self.ex(s[3])
+            val = v if s[2] == '=' else '(%s %s %s)' % (x, s[2][0], v)
+            return '(let %s := %s; %s)' % (x, val, self.imp(rest, vs))
+        if s[0] == 'expr' and s[1][0] in ('if', 'iflet'):
+            e = s[1]
+            if e[0] == 'if':
+                a = self.imp(self.blk_stmts(e[2]), vs)
+                b = self.imp(self.blk_stmts(e[3]) if e[3] is not None else [], vs)
+                here = '(if %s then %s else %s)' % (self.as_prop(e[1]), a, b)
+            else:
+                sc, sty = self.ex(e[2])
+                pat = e[1]
+                if not (pat[0] == 'pcall' and pat[1] == ['Some'] and len(pat[2]) == 1 and pat[2][0][0] == 'pid'
+                        and isinstance(sty, tuple) and sty[0] == 'opt'):
+                    raise Untranslatable('if let other than `Some(x) = <option>`')
+                x = pat[2][0][1]
+                sub = self.sub()
+                sub.env[x] = (x, sty[1])
+                a = sub.imp(self.blk_stmts(e[3]), vs)
+                b = self.imp(self.blk_stmts(e[4]) if e[4] is not None else [], vs)
+                here = '(match %s with | some %s => %s | none => %s)' % (sc, x, a, b)
+            if not rest:
+                return here
+            return '(match %s with | (true, imp_v) => (true, imp_v) | (false, %s) => %s)' % (here, tup, self.imp(rest, vs))
+        raise Untranslatable('statement %r in an imperative fragment' % (s[0] if s[0] != 'expr' else s[1][0],))
+
+    @staticmethod
+    def blk_stmts(b):
+        st = list(b[1])
+        if b[2] is not None:
+            if b[2][0] in ('if', 'iflet'):
+                st.append(('expr', b[2]))
+            else:
+                raise Untranslatable('block with a value in an imperative fragment')
+        return st
+
     def returns(self, b):
         """does this block always end in `return`?"""
         if b is None:
@@ -1241,7 +1317,9 @@ L_MAT = ('list', ('st', 'Transform2'))
 ST_SITE = {'x': ('{s}.x', 'f'), 'y': ('{s}.y', 'f'), 'angle': ('{s}.angle', 'f'), 'wyckoff': ('{s}', ('st', 'Wyckoff'))}
 ST_STATE = {'cell': ('{s}.cell', ('st', 'Cell')), 'shape': ('{s}.shape', ('st', 'Shape')),
             'occupied_sites': ('{s}.sites', ('list', ('st', 'Site')))}
-STRUCTS = {'Site': ST_SITE, 'Wyckoff': {'symmetries': ('{s}.ops', L_MAT)}, 'State': ST_STATE,
+ST_CFG = {'kt_start': ('{s}.ktStart', 'f'), 'kt_ratio': ('{s}.ktRatio', 'f'), 'max_step_size': ('{s}.maxStep', 'f'),
+          'steps': ('{s}.steps', 'n'), 'inner_steps': ('{s}.inner', 'n'), 'convergence': ('{s}.convergence', ('opt', 'f'))}
+STRUCTS = {'Cfg': ST_CFG, 'Site': ST_SITE, 'Wyckoff': {'symmetries': ('{s}.ops', L_MAT)}, 'State': ST_STATE,
            'LineShape': {'items': ('{s}', L_LINE)}, 'MolShape': {'items': ('{s}', L_ATOM)}, 'LJShape': {'items': ('{s}', L_LJ)},
            'Atom2': ST_ATOM, 'LJ2': ST_LJ, 'Line2': ST_LINE, 'Cell': ST_CELL, 'Handle': ST_HANDLE, 'Builder': ST_BUILDER}
 
@@ -1256,7 +1334,7 @@ class Group:
         self.names = []
 
     def add(self, lean_name, sig, rty_lean, rel, rust_name, src, env, selfty=None, methods=None, consts=None, cut=None,
-            post=None):
+            post=None, imp_vars=None):
         """translate `fn rust_name` found in `src` (already narrowed to the right impl block)"""
         self.names.append(lean_name)
         try:
@@ -1268,7 +1346,10 @@ class Group:
                 body = cut(body)
             ast = parse_fn_body(body)
             em = Emitter(env, STRUCTS, methods or {}, consts or {}, selfty)
-            term, ty = em.blk(ast)
+            if imp_vars is not None:
+                term, ty = em.imp(em.blk_stmts(ast), imp_vars), None
+            else:
+                term, ty = em.blk(ast)
             if post is not None:
                 term = post(term, ty)
             self.defs.append('/-- `%s` (%s) -/\ndef %s %s : %s :=\n  %s\n' % (rust_name, rel, lean_name, sig, rty_lean, term))
@@ -1516,6 +1597,34 @@ def gen_fns(repo):
     g.add('build_kt_ratio', '(self : Builder α)', 'α', 'src/optimisation.rs', 'build', b_impl, benv, cut=cut_build('kt_ratio'))
     out[g.fname] = g.text('fnsBuild')
 
+    # the part of the outer loop of `optimise_state` after the inner loop: cooling, convergence
+    # counter with early return, step-size adaptation (C18, C19, C20)
+    g = Group('FnsLoopTail.lean', ['Model.Optimiser'], 'src/optimisation.rs (optimise_state, after the inner loop)')
+
+    def cut_tail(body):
+        m = re.search(r'for\s+loop_counter\s+in\s+1\s*\.\.=\s*\(\s*self\.steps\s*/\s*self\.inner_steps\s*\)\s*\{', body)
+        if not m:
+            raise Untranslatable('outer loop `for loop_counter in 1..=(self.steps / self.inner_steps)` not found')
+        end = match_brace(body, m.end() - 1)
+        outer = body[m.end():end]
+        mi = re.search(r'for\s+_\s+in\s+0\s*\.\.\s*self\.inner_steps\s*\{', outer)
+        if not mi:
+            raise Untranslatable('inner loop `for _ in 0..self.inner_steps` not found')
+        iend = match_brace(outer, mi.end() - 1)
+        pre = re.sub(r'\s+', '', outer[:mi.start()])
+        if pre != 'letscore_start=score_current;letmutloop_rejections:u64=0;':
+            raise Untranslatable('statements before the inner loop are not `let score_start = score_current; let mut loop_rejections: u64 = 0;`')
+        return outer[iend + 1:]
+    tenv = {'self': ('self', ('st', 'Cfg')), 'rejections': ('rejections', 'n'), 'kt': ('kt', 'f'),
+            'convergence_count': ('convergence_count', 'n'), 'step_ratio': ('step_ratio', 'f'),
+            'score_current': ('score_current', 'f'), 'score_start': ('score_start', 'f'),
+            'loop_rejections': ('loop_rejections', 'n'), 'loop_counter': ('loop_counter', 'n'), 'state': ('()', 'unit')}
+    g.add('loop_tail',
+          '(self : Cfg α) (rejections : Nat) (kt : α) (convergence_count : Nat) (step_ratio score_current score_start : α) (loop_rejections loop_counter : Nat)',
+          'Bool × (Nat × α × Nat × α)', 'src/optimisation.rs', 'optimise_state', o_impl, tenv, cut=cut_tail,
+          imp_vars=['rejections', 'kt', 'convergence_count', 'step_ratio'])
+    out[g.fname] = g.text('fnsLoopTail')
+
     g = Group('FnsBasis.lean', ['Model.Basis'], 'src/basis.rs')
     basis = read(repo, 'src/basis.rs')
     sb = impl_block(basis, r"impl<'a>\s*StandardBasis<'a>\s*\{")
@@ -1559,7 +1668,7 @@ def main():
         files = gen_fns(repo)
     except Exception as e:
         files = {}
-        for n in ('FnsLattice.lean', 'FnsSite.lean', 'FnsPacked.lean', 'FnsPotential.lean', 'FnsLineShape.lean', 'FnsMolShape.lean', 'FnsLJShape.lean', 'FnsDisc.lean', 'FnsLine.lean', 'FnsLJ.lean', 'FnsCell.lean', 'FnsWrap.lean', 'FnsAccept.lean', 'FnsBuild.lean', 'FnsBasis.lean'):
+        for n in ('FnsLattice.lean', 'FnsSite.lean', 'FnsPacked.lean', 'FnsPotential.lean', 'FnsLineShape.lean', 'FnsMolShape.lean', 'FnsLJShape.lean', 'FnsDisc.lean', 'FnsLine.lean', 'FnsLJ.lean', 'FnsCell.lean', 'FnsWrap.lean', 'FnsAccept.lean', 'FnsBuild.lean', 'FnsLoopTail.lean', 'FnsBasis.lean'):
             files[n] = '/- GENERATED: rs2lean failed: %s -/\nnamespace PV.Gen\nend PV.Gen\n' % str(e).replace('-/', '- /')
     for name, text in files.items():
         path = os.path.join(outdir, name)
